@@ -93,6 +93,8 @@ Record dprog := {
      str(type_).startswith('typing') or GenericAlias -> recurse into get_type_arguments(type_);
                                                        an argument that is a list is also entered
      hasattr(type_, '__name__')                     -> context[type_.__name__] = type_
+   A types.UnionType `X | Y` has no __name__ and its str() is 'X | Y': nothing is added, unless the
+   first member is typing.Any, whose repr makes the str() start with 'typing'.
    get_type_arguments re-packs the arguments of typing.Callable as ([params], result); the members
    of that list are visited, but a list among them is not entered a second time.               *)
 Definition is_typing_callable (g : gname) : bool :=
@@ -106,7 +108,22 @@ Fixpoint upd (t : ty) : list string :=
       if is_typing_callable g
       then flat_map upd l
       else flat_map (fun a => match a with TLst m => flat_map upd m | x => upd x end) l
-  | _ => []                                (* None, ..., Any, typing.List, tuples, lists: nothing *)
+  | TPipe (TAny :: r) => flat_map upd r    (* str(Any | X) is 'typing.Any | X': "starts with typing"; Any itself adds nothing *)
+  | _ => []                                (* None, ..., Any, typing.List, tuples, lists, other X | Y: nothing *)
+  end.
+
+(* The names `eval` will find when the documented type of an annotation is evaluated: the context
+   collected so far, and the globals of check_docstring.py.  `ctx_covers [] annotations` says that
+   every class an annotation mentions can be named at the moment its entry is parsed.  It holds
+   whenever no user class occurs under an `X | Y` union (Proofs: no_pipe_ctx_covers); on the rest
+   _update_context misses names (open finding C19-pipe-union-context).                           *)
+Fixpoint ctx_covers (ctx : list string) (ann : list (string * ty)) : bool :=
+  match ann with
+  | [] => true
+  | (_, t) :: r =>
+      let ctx' := upd t ++ ctx in
+      forallb (fun n => mem n ctx' || match globals n with Some _ => true | None => false end) (cls_names t)
+      && ctx_covers ctx' r
   end.
 
 (* --------------------------------------------------------------------------------------- *)
